@@ -90,3 +90,16 @@ Proof. vm_compute. reflexivity. Qed.
 (* unpack_byte_array on a buffer cut inside the last item *)
 Lemma unpack_byte_array_truncated_oob : c_unpack_byte_array [3; 0; 0; 0; 97; 98] 1 = UOOB.
 Proof. vm_compute. reflexivity. Qed.
+
+(* a well-formed DELTA_BINARY_PACKED page as other writers produce it: the width byte of the unneeded trailing
+   miniblock is stale (5, not 0).  Block of 16 values, 2 miniblocks of 8; 9 values 1..9 (first value 1, min delta 1, the
+   8 deltas fill miniblock 0 with width 0); miniblock 1 carries no value and has no body.  The spec decoder ignores the
+   stale byte; the model of the compiled decoder reaches that miniblock with exactly one value left (`count > 1` is
+   false), does not unpack it and ends with the input cursor AT the end of the page. *)
+From Pq Require Codec.Delta.
+Definition delta_stale_page : bytes := [16; 2; 9; 2; 2; 0; 5].
+Lemma delta_stale_width_spec : Pq.Codec.Delta.delta_dec 32 delta_stale_page = Some ([1; 2; 3; 4; 5; 6; 7; 8; 9]%Z, []).
+Proof. vm_compute. reflexivity. Qed.
+Lemma delta_stale_width_ok :
+  c_delta_binary_unpack delta_stale_page (repN 2863311530 9 []) 36 false = Ok ([1; 2; 3; 4; 5; 6; 7; 8; 9], 7, 36).
+Proof. vm_compute. reflexivity. Qed.
